@@ -867,8 +867,8 @@ class Distributions(object):
 
         # Determine rmax.
         rmax_in = self.rmax_in
-        if isinstance(rmax_in, int):
-            rmax = rmax_in
+        if isinstance(rmax_in, (int, np.integer)):
+            rmax = int(rmax_in)
         elif rmax_in == 'hor': rmax = hor
         elif rmax_in == 'ver': rmax = ver
         elif rmax_in == 'HOR': rmax = HOR
